@@ -32,6 +32,10 @@ def dispatch : Sexp → Except String Sexp
   | .list (.atom "render.blocks" :: .str ext :: bs) => do
     let gs ← bs.mapM Codec.gblock?
     return Codec.exceptS Sexp.str (Render.blocksSparse ext gs)
+  | .list [.atom "graph.actions", .str ext, .list (.atom "import" :: imp), .list (.atom "steps" :: steps), .str key, .atom line] =>
+    GraphOps.actionsOp ext imp steps key (line.toNat?.getD 0)
+  | .list [.atom "graph.rename", .str ext, .list (.atom "import" :: imp), .list (.atom "steps" :: steps), .str fromKey, url, .str newName] => do
+    GraphOps.renameOp ext imp steps fromKey (← Codec.optStr? url) newName
   | other => .error s!"unknown request {other.toStr.take 80}"
 
 partial def loop (h : IO.FS.Stream) (out : IO.FS.Stream) : IO Unit := do
